@@ -123,6 +123,62 @@ PROPS = {
         "explanation": "monotonicity theorem for all op sequences + kernel correspondence + rank-wise API comparisons",
         "assumptions": COMMON_ASSUMPTIONS,
     },
+    "C14": {
+        "harness": "c14", "level": "proof", "category": "proof", "design_ref": "DESIGN.md 5/C14, 4.4, Appendix E", "translators": [],
+        "technique": "Lean 4 proof (structural induction over the tree of recursive calls, for every side oracle; array-threading "
+                     "proof of the flattening with frame lemmas; fuel-free routing argument) + array-for-array differential "
+                     "correspondence with the real numba/Python kernels",
+        "text": "Lean theorems leaves_partition, tree_partition, leaf_size_bound, build_terminates, convert_spec, route_terminates_valid, "
+                "linked_form_spec, leafArray_spec about a literal model of make_*_tree (one control structure for the five split kernels; "
+                "margins, hyperplanes and coins abstracted by an arbitrary side oracle incl. the re-draw fall-back that may again leave a "
+                "side empty), of the post-order linked lists, get_leaves_from_tree, recursive_convert / convert_tree_format (arrays "
+                "pre-filled with -1 and written cell by cell, returned (node_num, leaf_start) threaded as in the code) and the "
+                "search_flat_tree loop `while children[node,0] > 0`: for every oracle, leaf size, depth fuel and index list the leaves "
+                "are a permutation of the input, a leaf larger than leaf_size sits at exhausted depth, depth <= max_depth (termination "
+                "does not depend on the data), the flat indices are the concatenated leaves, leaf rows tile [0,n) (the leaf at offset 0 "
+                "is (0,-end) and is classified as a leaf), inner rows are (node+1, larger in-range row), and routing under every side "
+                "function ends, with fuel = number of nodes, in a leaf row whose slice is a leaf of the linked tree. The model is tied "
+                "to rp_trees.py by comparing, on generated data sets (random / duplicates / all-identical / all-zero / collinear / "
+                "n <= leaf_size / n in {0,1,2}) x {dense euclidean, dense angular, bit-packed, sparse euclidean, sparse angular} x "
+                "leaf_size 1.. x max_depth 0..200: buildTree fed with the side decisions read off the real tree, linearize, leafArray, "
+                "recursiveConvert and route (side decisions recomputed with the real select_side* on a copy of the generator state and, "
+                "away from the EPS band, from numpy margins) array for array; the property predicates are evaluated on the real linked "
+                "trees, leaf arrays, flat trees, make_forest output, NNDescent._rp_forest / _search_forest / _vertex_order and on the "
+                "results of the real search kernels and tree_search_closure",
+        "note": TB + "the sampled array-for-array correspondence between the Lean model and rp_trees.py; int32 overflow is not modelled "
+                     "(unbounded Int); memory safety is out of scope (numba has no bounds checks: sparse routing through an empty hyperplane "
+                     "or with an empty query reads out of bounds and is not exercised); leaf_size >= 0 (a negative leaf_size divides by zero "
+                     "in the split); observed but not forbidden by the property: empty leaves (the fall-back can leave a side empty), and "
+                     "resort_tree_indices composes the permutations in the wrong order for search trees other than the first "
+                     "(tree.indices[tree_order] instead of tree_order[tree.indices]; those trees are never descended by query())",
+        "explanation": "theorems over every side oracle / leaf size / depth fuel / index list / side function; correspondence of the five "
+                       "model functions with the real kernels on every generated tree and routed query; predicates on real outputs at "
+                       "kernel, forest and index level",
+        "assumptions": COMMON_ASSUMPTIONS + [  # noqa: F821  (defined in registry.py)
+            "every *_random_projection_split returns a stable partition of its `indices` by a 0/1 side array (read off the source: the five "
+            "kernels share the count / re-draw / populate code; the partition and its stability are checked on every generated tree)",
+            "node numbers, offsets and point ids fit int32 (unbounded Int in the model)",
+            "leaf_size >= 0 and the data has at least one column; the linked tree handed to convert_tree_format was built by make_*_tree",
+        ],
+    },
+    "C17": {
+        "harness": "c17", "level": "proof", "category": "proof", "design_ref": "DESIGN.md 5/C17", "translators": [],
+        "technique": "Lean 4 proof over an alias model (who owns the current data buffer) for every input class, metric class and history + byte-for-byte before/after comparison of every array handed to the real API + np.shares_memory vs the model's alias bit",
+        "text": "Model/Alias.lean lists, as written in the code, the alias / copy / in-place-write operations of __init__ (check_array, "
+                "sorted_indices, normalize with copy_on_normalize), _init_search_graph, update, query; Lean proves caller_buffers_unchanged: "
+                "for all 7 dtypes x 3 layouts x dense/sparse x CSR x sorted-indices classes, the three metric classes (plain, normalising dot, "
+                "bit-packed) and every history of prepare / update / compress / pickle no in-place write targets a buffer reachable from the "
+                "caller, plus alias_iff (exactly when the index keeps sharing memory) and query_never_writes. On the real API every array "
+                "ever passed (data, queries, xs_fresh, xs_updated, updated_indices, init_graph, init_dist; indptr / indices / data of sparse "
+                "input) is snapshotted and compared byte-for-byte after every operation of shuffled histories over f32/f64, C/F/strided, "
+                "CSR sorted/unsorted/f64, CSC, uint8 inputs, and the model's alias bit is compared with np.shares_memory",
+        "note": TB + "the alias model is hand-written from the source (sklearn check_array / normalize, numpy indexing semantics are trusted as "
+                     "documented); numba kernels are assumed not to write their read-only inputs (data is passed to kernels that only read it; "
+                     "the byte comparison samples this)",
+        "explanation": "theorem over all input classes and histories; byte-for-byte comparison on real histories; alias bit vs shares_memory",
+        "assumptions": ["numpy fancy/boolean indexing, astype, vstack, ascontiguousarray of a permuted array and scipy sorted_indices return new buffers",
+                        "numba kernels do not write the data / query arrays they are given (sampled by the byte comparison)"],
+    },
     "C19": {
         "harness": "c19", "translators": ["threads"], "level": "proof", "category": "proof", "design_ref": "DESIGN.md 5/C19, 2.3",
         "technique": "Lean 4 proof (soundness of an exception-flow checker) + decide over a skeleton regenerated from the source + fault sequences on the real API",
